@@ -127,30 +127,51 @@ def run(ctx):
     dsum = {}
     for b in drains:
         key = fnkey(b)
-        cls = F.closures_of(b)
-        filt = [cb for cb in cls if cb.locals and cb.locals[0]["ty"] == "bool"]
-        mapc = [cb for cb in cls if cb.locals and cb.locals[0]["ty"].endswith("Observation")]
+        units = [b] + list(F.closures_of(b))       # iterator-adapter form (filter/map closures) or plain loop form: both are read
         fsum = None
-        for cb in filt:
-            for i in cb.live_blocks():
-                for s in cb.stmts(i):
-                    if s["k"] == "assign" and s["lhs"]["l"] == 0 and s["rv"]["k"] == "binop":
-                        ao = Prov(cb).operand(s["rv"]["a"])
-                        k = op_const(s["rv"]["b"]) or {}
-                        fsum = (s["rv"]["op"], any(x[0] == "call" and cb.term(x[1])["callee"]["name"] == "count" for x in ao), k.get("int"))
-        ctx.check(fsum == ("Gt", True, 0), "R11.1", key + "#keeps-non-empty-buckets", loc(b), "drain filter is %s, expected bucket.count() > 0" % (fsum,))
         msum = None
-        for cb in mapc:
+        for cb in units:
             pr = Prov(cb)
+            agg_blocks = [i for i in cb.live_blocks() for s_ in cb.stmts(i) if s_["k"] == "assign" and s_["rv"]["k"] == "agg" and s_["rv"].get("variant") == "Repeated"]
             for i in cb.live_blocks():
-                for s in cb.stmts(i):
-                    if s["k"] == "assign" and s["rv"]["k"] == "agg" and s["rv"].get("variant") == "Repeated":
-                        flds = dict(zip(s["rv"]["fields"], s["rv"]["ops"]))
+                for s_ in cb.stmts(i):
+                    if s_["k"] == "assign" and s_["rv"]["k"] == "binop" and s_["rv"]["op"] in ("Gt", "Ne", "Eq", "Lt", "Le", "Ge"):
+                        ao, bo = pr.operand(s_["rv"]["a"]), pr.operand(s_["rv"]["b"])
+                        ka, kb = op_const(s_["rv"]["a"]) or {}, op_const(s_["rv"]["b"]) or {}
+                        is_count = lambda o: any(x[0] == "call" and cb.term(x[1])["callee"]["name"] == "count" for x in o)
+                        op = s_["rv"]["op"]
+                        cls_ = None     # 'positive' (true iff count > 0) or 'zero' (true iff count == 0)
+                        if is_count(ao) and kb.get("int") == 0:
+                            cls_ = {"Gt": "positive", "Ne": "positive", "Eq": "zero", "Le": "zero"}.get(op)
+                        elif is_count(bo) and ka.get("int") == 0:
+                            cls_ = {"Lt": "positive", "Ne": "positive", "Eq": "zero", "Ge": "zero"}.get(op)
+                        elif is_count(ao) and kb.get("int") == 1:
+                            cls_ = {"Ge": "positive", "Lt": "zero"}.get(op)
+                        if cls_ is None:
+                            continue
+                        if s_["lhs"]["l"] == 0 and cb.locals[0]["ty"] == "bool" and cb is not b:
+                            # a filter closure: its result decides keeping
+                            fsum = ("keep-iff-count>0" if cls_ == "positive" else "keep-iff-count==0", True, 0)
+                        else:
+                            # a branch in front of the emission: the Repeated aggregate must sit on the count>0 side only
+                            t = cb.term(i)
+                            if t["k"] == "switch" and agg_blocks:
+                                tg = {v: tb for v, tb in t["targets"]}
+                                t_false, t_true = tg.get(0), t["otherwise"]
+                                pos_t, zero_t = (t_true, t_false) if cls_ == "positive" else (t_false, t_true)
+                                on_pos = all(ab in cb.reachable(pos_t, avoid=[i]) for ab in agg_blocks)
+                                on_zero = any(ab in cb.reachable(zero_t, avoid=[i]) for ab in agg_blocks) if zero_t is not None else True
+                                fsum = ("keep-iff-count>0" if on_pos and not on_zero else "emission-not-guarded-by-count>0", True, 0)
+            for i in cb.live_blocks():
+                for s_ in cb.stmts(i):
+                    if s_["k"] == "assign" and s_["rv"]["k"] == "agg" and s_["rv"].get("variant") == "Repeated":
+                        flds = dict(zip(s_["rv"]["fields"], s_["rv"]["ops"]))
                         oo = pr.operand(flds["occurrences"])
                         to = pr.operand(flds["total"])
                         occ_ok = all(x[0] in ("via",) or (x[0] == "call" and cb.term(x[1])["callee"]["name"] == "count") for x in oo) and bool(oo)
                         tot_calls = sorted({cb.term(x[1])["callee"]["name"] for x in to if x[0] == "call"})
                         msum = (occ_ok, tuple(n for n in tot_calls if n in ("scale_down", "count", "midpoint", "range", "start", "end")), ("op", "Mul") in to)
+        ctx.check(fsum == ("keep-iff-count>0", True, 0), "R11.1", key + "#keeps-non-empty-buckets", loc(b), "drain keeps buckets by %s, expected exactly those with bucket.count() > 0" % (fsum,))
         ctx.check(msum is not None and msum[0], "R11.1", key + "#occurrences-from-bucket-count", loc(b), "emitted occurrences do not derive solely from Bucket::count() (%s)" % (msum,))
         ctx.check(msum is not None and "scale_down" in msum[1] and "count" in msum[1] and msum[2], "R11.1", key + "#total-is-scaled-midpoint-times-count", loc(b),
                   "emitted total is not scale_down(midpoint) * count: %s" % (msum,))
